@@ -121,7 +121,14 @@ class Impl:
             self.loop.run_until_complete(self.mgr.setup())
             pool.shutdown(wait=True)
             self.loop.set_default_executor(self.ex)
-        self.blob = self.mgr.get_blob(blob_hash_hex, expected)
+        try:
+            self.blob = self.mgr.get_blob(blob_hash_hex, expected)
+        except BaseException:
+            self.ex.shutdown(wait=False)
+            asyncio.set_event_loop(None)
+            self.loop.close()
+            shutil.rmtree(self.root, ignore_errors=True)
+            raise
         if not isinstance(self.blob, BlobFile if kind == 'file' else BlobBuffer):
             raise RuntimeError('blob manager returned a %s for kind %s' % (type(self.blob).__name__, kind))
         self.writers = []
@@ -775,7 +782,7 @@ def gen_redownload(rng, run):
 
 
 class Session:
-    def __init__(self, kind, cb, data, blob_hash=None, file=None, expected=None, crash=None):
+    def __init__(self, kind, cb, data, blob_hash=None, file=None, expected=None, crash=None, spelled=None):
         self.kind, self.cb, self.data = kind, cb, data
         self.hash = blob_hash if blob_hash is not None else sha(data)
         self.crash = crash
@@ -788,7 +795,8 @@ class Session:
             expected = None if file is not None else len(data)
             self.impl = Impl(kind, cb, self.hash.hex(), None, len(data), root=root, setup=True)
         else:
-            self.impl = Impl(kind, cb, self.hash.hex(), file, expected)
+            self.impl = Impl(kind, cb, spelled or self.hash.hex(), file, expected)
+        self.spelled = spelled
         self.file, self.expected = file, expected
         self.mon = Monitor(self.hash, cb, kind)
         self.mon.crashed = crash is not None
@@ -814,6 +822,8 @@ class Session:
                 'file': None if self.file is None else self.file.hex(), 'expected': self.expected, 'ops': self.ops}
         if self.crash is not None:
             case['crash'] = self.crash
+        if self.spelled is not None:
+            case['spelled'] = self.spelled
         return case, [('start', self.start_obs)] + self.trace, self.mon
 
     def close(self):
@@ -824,7 +834,7 @@ def run_fixed(case):
     """execute a stored / enumerated case (concrete op list) on the implementation"""
     f = case.get('file')
     sess = Session(case['kind'], case['cb'], bytes.fromhex(case['data']), bytes.fromhex(case['hash']),
-                   None if f is None else bytes.fromhex(f), case.get('expected'), case.get('crash'))
+                   None if f is None else bytes.fromhex(f), case.get('expected'), case.get('crash'), case.get('spelled'))
     try:
         for op in case['ops']:
             sess.do(op)
@@ -906,7 +916,9 @@ import lbry.wallet
 import lbry.blob.blob_file as bf
 from lbry.blob.blob_manager import BlobManager
 from lbry.conf import Config
-root, blob_hash, kill_after = sys.argv[1], sys.argv[2], int(sys.argv[3])
+root, blob_hash, kill_after = sys.argv[1], sys.argv[2], sys.argv[3]
+kill_at_replace = kill_after in ('after_replace', 'before_replace')
+kill_after = 0 if kill_at_replace else int(kill_after)
 data = open(os.path.join(root, 'data.bin'), 'rb').read()
 blob_dir = os.path.join(root, 'blobfiles')
 real_open = open
@@ -920,7 +932,16 @@ class Dying:
 def dying_open(path, mode='r', *a, **k):
     f = real_open(path, mode, *a, **k)
     return Dying(f) if 'w' in mode and str(path).startswith(blob_dir) else f
-bf.open = dying_open                      # the disk beneath BlobFile._write_blob
+real_replace = os.replace
+def dying_replace(src, dst, *a, **k):
+    if sys.argv[3] == 'before_replace':
+        os.kill(os.getpid(), signal.SIGKILL)
+    real_replace(src, dst, *a, **k)
+    os.kill(os.getpid(), signal.SIGKILL)   # the process dies right after the rename, whatever is still buffered is lost
+if kill_at_replace:
+    os.replace = dying_replace            # the disk beneath BlobFile._write_blob
+else:
+    bf.open = dying_open
 async def main():
     loop = asyncio.get_running_loop()
     conf = Config(data_dir=root, wallet_dir=root, download_dir=root, config=os.path.join(root, 'settings.yml'))
@@ -960,11 +981,31 @@ def crash_restart_family(tier='quick'):
         big = big[:MAX]
         yield {'kind': 'file', 'cb': True, 'data': big.hex(), 'hash': sha(big).hex(), 'file': None, 'expected': None,
                'crash': {'kill_after': MAX // 2}, 'ops': [['read'], ['isv', MAX], ['ensure'], ['len', MAX], ['drain']]}
-    for kill_after in (0, 20, 40):
+    for kill_after in ((0, 20, 40, 'before_replace', 'after_replace') if tier == 'thorough' else (20, 'before_replace', 'after_replace')):
         ops = [['read'], ['isv', 40], ['isv', None], ['ensure'], ['len', 40], ['open', 1], ['write', 0, data[:13].hex()],
                ['write', 0, data[13:].hex()], ['drain'], ['io'], ['drain'], ['read'], ['ensure']]
         yield {'kind': 'file', 'cb': True, 'data': data.hex(), 'hash': h, 'file': None, 'expected': None,
                'crash': {'kill_after': kill_after}, 'ops': ops}
+    # the process dies right after the rename: blobs smaller than any I/O buffer (1 byte, 300 bytes)
+    for small in (b'\x7f', bytes((7 * i + 1) % 256 for i in range(300))):
+        n = len(small)
+        ops = [['read'], ['isv', n], ['ensure'], ['len', n], ['open', 1], ['write', 0, small.hex()], ['drain'], ['io'], ['drain'],
+               ['read']]
+        yield {'kind': 'file', 'cb': True, 'data': small.hex(), 'hash': sha(small).hex(), 'file': None, 'expected': None,
+               'crash': {'kill_after': 'after_replace'}, 'ops': ops}
+
+
+def hash_spelling_family():
+    """a blob addressed by an upper / mixed case spelling of its hash: either the name is refused outright, or a
+    complete correct copy makes it verified like any other blob (the digest comparison must not depend on spelling)"""
+    data = bytes(range(0x50, 0x50 + 16))
+    h = sha(data).hex()
+    mixed = ''.join(c.upper() if i % 3 == 0 else c for i, c in enumerate(h))
+    for kind in ('file', 'buffer'):
+        for spelled in (h.upper(), mixed):
+            ops = [['open', 1], ['write', 0, data[:7].hex()], ['write', 0, data[7:].hex()], ['drain'], ['io'], ['drain'], ['read']]
+            yield {'kind': kind, 'cb': True, 'data': data.hex(), 'hash': h, 'file': None, 'expected': 16, 'spelled': spelled,
+                   'ops': ops}
 
 
 def interleavings(a, b):
@@ -1291,7 +1332,9 @@ def main(run):
                 'families: BlobManager.is_blob_verified(hash, right / wrong / no length) and ensure_completed_blobs_status after '
                 'every operation; the executor job of a save failing (ENOSPC) with reads and queries after every hop, then a '
                 'second delivery; a real child process SIGKILLed after 0 / half / all bytes of the disk write followed by the real '
-                'BlobManager.setup() over what it left behind. Then every interleaving of '
+                'BlobManager.setup() over what it left behind (also killed right before / right after the rename, with 1-byte and '
+                '300-byte blobs); a blob addressed by an upper / mixed case spelling of its hash (refused, or else it must verify). '
+                'Then every interleaving of '
                 '2 writers x 1-3 chunks x 5 data kinds on a 3-byte blob. distinct = distinct (kind, data, op list); '
                 'non-trivial = at least one chunk was accepted by a writer. Monitor-only: 2 MiB and 2 MiB+1 blobs. Announce: '
                 '3-6 blobs on the real BlobManager + SQLiteStorage with the real blob_completed, each known from a descriptor '
@@ -1302,7 +1345,14 @@ def main(run):
         if case.get('announce'):
             judge_announce(run, model, case)
             continue
-        c, trace, mon = run_fixed(case)
+        try:
+            c, trace, mon = run_fixed(case)
+        except InvalidBlobHashError:
+            if not case.get('spelled'):
+                raise
+            run.case(case, nontrivial=True)
+            run.count('cases:hash-spelling-refused')
+            continue
         judge(run, model, c, trace, mon, 'corpus')
     for case in read_everywhere_family():
         c, trace, mon = run_fixed(case)
@@ -1316,6 +1366,14 @@ def main(run):
     for case in crash_restart_family(run.tier):
         c, trace, mon = run_fixed(case)
         judge(run, model, c, trace, mon, 'crash-restart')
+    for case in hash_spelling_family():
+        try:
+            c, trace, mon = run_fixed(case)
+        except InvalidBlobHashError:
+            run.case(case, nontrivial=True)
+            run.count('cases:hash-spelling-refused')
+            continue
+        judge(run, model, c, trace, mon, 'hash-spelling-accepted')
     n_rand = vlib.scaled(run.tier, 5000, 200000)
     for n in range(n_rand):
         if n % 8 == 7:
